@@ -79,7 +79,14 @@ func (vc *VC) analyzeCFG() (order []*ssa.BasicBlock) {
 	}
 	vc.assignLoopOrdinals()
 	if vc.c != nil {
+		allK := map[int]bool{}
 		for k := range vc.c.Loops {
+			allK[k] = true
+		}
+		for k := range vc.c.Unroll {
+			allK[k] = true
+		}
+		for k := range allK {
 			found := false
 			for _, li := range vc.loops {
 				if li.ord == k {
@@ -95,34 +102,279 @@ func (vc *VC) analyzeCFG() (order []*ssa.BasicBlock) {
 }
 
 func (vc *VC) run() {
-	fn := vc.fn
 	order := vc.analyzeCFG()
 	rs := &runState{out: map[*ssa.BasicBlock]*blockOut{}, edge: map[edgeKey]string{}, order: order}
 	vc.rs = rs
+	done := map[*ssa.BasicBlock]bool{}
 	for _, b := range order {
-		vc.enterBlock(rs, b)
-		if vc.cur.pc == "false" {
-			rs.out[b] = &blockOut{pc: "false", heap: vc.cur.heap}
+		if done[b] {
+			continue
+		}
+		vc.processBlock(rs, b, done)
+	}
+}
+
+// processBlock symbolically executes one block (or, for the head of an unrolled loop, the whole loop).
+func (vc *VC) processBlock(rs *runState, b *ssa.BasicBlock, done map[*ssa.BasicBlock]bool) {
+	if li := vc.loops[b]; li != nil && vc.unrollOf(li) > 0 {
+		vc.runUnrolled(rs, li, vc.unrollOf(li), done)
+		return
+	}
+	done[b] = true
+	vc.enterBlock(rs, b)
+	vc.execBlockBody(rs, b)
+}
+
+func (vc *VC) execBlockBody(rs *runState, b *ssa.BasicBlock) {
+	if vc.cur.pc == "false" {
+		rs.out[b] = &blockOut{pc: "false", heap: vc.cur.heap}
+		for i := range b.Succs {
+			rs.edge[edgeKey{b, i}] = "false"
+		}
+		return
+	}
+	for _, ins := range b.Instrs {
+		if _, ok := ins.(*ssa.Phi); ok {
+			continue
+		}
+		vc.exec(rs, ins)
+	}
+	rs.out[b] = &blockOut{pc: vc.cur.pc, heap: vc.cur.heap}
+	// back edges out of b (loops cut by invariants)
+	for i, s := range b.Succs {
+		if s.Dominates(b) {
+			if li := vc.loops[s]; li != nil && vc.unrollOf(li) > 0 {
+				continue // handled by runUnrolled
+			}
+			vc.backEdge(rs, b, i, s)
+		}
+	}
+}
+
+func (vc *VC) unrollOf(li *loopInfo) int {
+	if vc.c == nil || li.ord == 0 {
+		return 0
+	}
+	return vc.c.Unroll[li.ord]
+}
+
+// runUnrolled executes a loop with a constant trip count by exact unrolling: the body is executed up to
+// K times; after the K-th iteration the back edge must be infeasible (obligation "unwind"), which makes the
+// unrolling a complete proof rather than a bound.
+func (vc *VC) runUnrolled(rs *runState, li *loopInfo, K int, done map[*ssa.BasicBlock]bool) {
+	h := li.head
+	var loopOrder []*ssa.BasicBlock
+	for _, b := range rs.order {
+		if li.blocks[b] {
+			loopOrder = append(loopOrder, b)
+		}
+	}
+	type backIn struct {
+		cond string
+		heap *Heap
+		phis map[*ssa.Phi]*Val
+	}
+	type exitRec struct {
+		key  edgeKey
+		cond string
+		heap *Heap
+	}
+	var exits []exitRec
+	versions := map[ssa.Value][]*Val{} // per iteration (nil if not defined)
+	var exitedIn []string
+	// iteration 0 enters from outside
+	preds, conds, heaps := vc.incoming(rs, h, false)
+	var backs []backIn
+	if len(preds) == 0 {
+		for _, b := range loopOrder {
+			done[b] = true
+			rs.out[b] = &blockOut{pc: "false", heap: vc.heap0.clone()}
 			for i := range b.Succs {
 				rs.edge[edgeKey{b, i}] = "false"
 			}
-			continue
 		}
-		for _, ins := range b.Instrs {
-			if _, ok := ins.(*ssa.Phi); ok {
+		return
+	}
+	for it := 0; ; it++ {
+		var pc string
+		var heap *Heap
+		phiVals := map[*ssa.Phi]*Val{}
+		if it == 0 {
+			pc = vc.define(fmt.Sprintf("pc_%d_u0", h.Index), "Bool", sOr(conds...))
+			heap = vc.mergeHeaps(conds, heaps)
+			for _, ins := range h.Instrs {
+				phi, ok := ins.(*ssa.Phi)
+				if !ok {
+					break
+				}
+				phiVals[phi] = vc.phiMerge(phi, h, preds, conds)
+			}
+		} else {
+			var cs []string
+			var hs []*Heap
+			for _, bi := range backs {
+				cs = append(cs, bi.cond)
+				hs = append(hs, bi.heap)
+			}
+			if len(cs) == 0 || sOr(cs...) == "false" {
+				break
+			}
+			if it > K {
+				ob := vc.oblige("unwind", "true", sNot(sOr(cs...)), li.pos, fmt.Sprintf("loop %d has exited after %d iterations (unroll %d is complete)", li.ord, K, K))
+				ob.Scaffold = true
+				break
+			}
+			pc = vc.define(fmt.Sprintf("pc_%d_u%d", h.Index, it), "Bool", sOr(cs...))
+			heap = vc.mergeHeaps(cs, hs)
+			for _, ins := range h.Instrs {
+				phi, ok := ins.(*ssa.Phi)
+				if !ok {
+					break
+				}
+				var vs []*Val
+				for _, bi := range backs {
+					vs = append(vs, bi.phis[phi])
+				}
+				phiVals[phi] = vc.iteVals(cs, vs, phi.Type())
+			}
+		}
+		// head
+		vc.cur = &blockCtx{b: h, pc: pc, heap: heap}
+		for phi, v := range phiVals {
+			vc.bind(phi, v)
+		}
+		vc.execBlockBody(rs, h)
+		itDone := map[*ssa.BasicBlock]bool{h: true}
+		for _, b := range loopOrder {
+			if itDone[b] {
 				continue
 			}
-			vc.exec(rs, ins)
+			vc.processBlock(rs, b, itDone)
 		}
-		rs.out[b] = &blockOut{pc: vc.cur.pc, heap: vc.cur.heap}
-		// back edges out of b
-		for i, s := range b.Succs {
-			if s.Dominates(b) {
-				vc.backEdge(rs, b, i, s)
+		// collect back edges, exits and live values of this iteration
+		backs = nil
+		var exitCs []string
+		for _, b := range loopOrder {
+			bo := rs.out[b]
+			if bo == nil {
+				continue
+			}
+			for i, s := range b.Succs {
+				ec := rs.edge[edgeKey{b, i}]
+				if ec == "" || ec == "false" {
+					continue
+				}
+				if s == h {
+					bi := backIn{cond: ec, heap: bo.heap, phis: map[*ssa.Phi]*Val{}}
+					for _, ins := range h.Instrs {
+						phi, ok := ins.(*ssa.Phi)
+						if !ok {
+							break
+						}
+						bi.phis[phi] = vc.val(phi.Edges[predIndex(h, b)])
+					}
+					backs = append(backs, bi)
+				} else if !li.blocks[s] {
+					exits = append(exits, exitRec{edgeKey{b, i}, ec, bo.heap})
+					exitCs = append(exitCs, ec)
+				}
+			}
+		}
+		exitedIn = append(exitedIn, sOr(exitCs...))
+		for _, b := range loopOrder {
+			for _, ins := range b.Instrs {
+				if v, ok := ins.(ssa.Value); ok {
+					for len(versions[v]) < it {
+						versions[v] = append(versions[v], nil)
+					}
+					if rs.out[b] != nil && rs.out[b].pc != "false" {
+						versions[v] = append(versions[v], vc.vals[v])
+					} else {
+						versions[v] = append(versions[v], nil)
+					}
+				}
 			}
 		}
 	}
-	_ = fn
+	// aggregate the exits of all iterations
+	for _, b := range loopOrder {
+		done[b] = true
+	}
+	byKey := map[edgeKey][]exitRec{}
+	var keys []edgeKey
+	for _, e := range exits {
+		if _, ok := byKey[e.key]; !ok {
+			keys = append(keys, e.key)
+		}
+		byKey[e.key] = append(byKey[e.key], e)
+	}
+	exitBlocks := map[*ssa.BasicBlock]bool{}
+	for _, b := range loopOrder {
+		for i, s := range b.Succs {
+			if !li.blocks[s] {
+				rs.edge[edgeKey{b, i}] = "false"
+				exitBlocks[b] = true
+			}
+		}
+	}
+	perBlock := map[*ssa.BasicBlock][]exitRec{}
+	for _, k := range keys {
+		var cs []string
+		for _, e := range byKey[k] {
+			cs = append(cs, e.cond)
+			perBlock[k.from] = append(perBlock[k.from], e)
+		}
+		rs.edge[k] = vc.define(fmt.Sprintf("e_%d_x", k.from.Index), "Bool", sOr(cs...))
+	}
+	for b := range exitBlocks {
+		recs := perBlock[b]
+		if len(recs) == 0 {
+			rs.out[b] = &blockOut{pc: "false", heap: vc.heap0.clone()}
+			continue
+		}
+		var cs []string
+		var hs []*Heap
+		for _, e := range recs {
+			cs = append(cs, e.cond)
+			hs = append(hs, e.heap)
+		}
+		rs.out[b] = &blockOut{pc: sOr(cs...), heap: vc.mergeHeaps(cs, hs)}
+	}
+	// values defined in the loop and used after it: select the version of the exiting iteration
+	for v, vers := range versions {
+		ins, _ := v.(ssa.Instruction)
+		if ins == nil || v.Referrers() == nil {
+			continue
+		}
+		usedOutside := false
+		for _, r := range *v.Referrers() {
+			if !li.blocks[r.Block()] {
+				usedOutside = true
+			}
+		}
+		if !usedOutside {
+			continue
+		}
+		var cs []string
+		var vs []*Val
+		for it, x := range vers {
+			if x == nil || it >= len(exitedIn) || exitedIn[it] == "false" {
+				continue
+			}
+			if x.K == KTuple || x.K == KUnit {
+				vs = nil
+				break
+			}
+			cs = append(cs, exitedIn[it])
+			vs = append(vs, x)
+		}
+		if len(vs) > 0 {
+			func() {
+				defer func() { recover() }()
+				vc.bind(v, vc.iteVals(cs, vs, v.Type()))
+			}()
+		}
+	}
 }
 
 func (vc *VC) incoming(rs *runState, b *ssa.BasicBlock, back bool) (preds []*ssa.BasicBlock, conds []string, heaps []*Heap) {
